@@ -2608,7 +2608,12 @@ class ChannelManager:
                 timeout=timeout,
             ),
         )
-        return await self.connection_parameters_update_response
+        try:
+            return await connection.cancel_on_disconnection(
+                self.connection_parameters_update_response
+            )
+        finally:
+            self.connection_parameters_update_response = None
 
     def on_l2cap_connection_parameter_update_response(
         self,
